@@ -922,7 +922,26 @@ def oracle_slow_start(case, impl):
     return hits
 
 
+def oracle_eof_honest(case, impl):
+    """C03: a reader sees a clean end-of-stream only after the peer's FIN: never when no FIN was ever received
+    (connection aborted, channel from the socket lost, cancelled): then reads must report an error."""
+    tr = Trace(case, impl)
+    hits = []
+    fin_injected = False
+    for ev in tr.events:
+        if ev["op"] == "new":
+            fin_injected = False
+        if ev["op"] == "inject" and "dgram" in ev and ev["dgram"]["type"] == 1:
+            fin_injected = True
+        if ev["op"] == "read" and ev["out"].startswith("eof") and ev["args"] != ["0"] and not fin_injected:
+            hits.append({"sig": {"oracle": "eof", "what": "clean_eof_without_fin"},
+                         "text": f"`{ev['line']}` returned a clean end-of-stream although the peer never sent a FIN (the connection ended some other way): the reader cannot tell a truncated stream from a complete one"})
+            break
+    return hits
+
+
 ALL = {
+    "eof_honest": oracle_eof_honest,
     "probe_discipline": oracle_probe_discipline,
     "reset": oracle_reset,
     "slow_start": oracle_slow_start,
